@@ -7,6 +7,7 @@ package main
 import (
 	"fmt"
 	"go/token"
+	"go/types"
 	"strings"
 
 	"golang.org/x/tools/go/ssa"
@@ -23,6 +24,7 @@ func checkC15(c *Check) {
 	checkC02Decode(c)
 	c.openEncodeLayout("C15.1 open-encode-layout")
 	c.capabilityCodec("C15.1 capability-codec")
+	c.oneParamPerWireParam("C15.1 one-param-per-wire-param")
 	c.lengthOctets("C15.2 length-octets")
 	// exported helpers
 	c.addPathTuple("C15.4 add-path")
@@ -499,4 +501,144 @@ func (c *Check) capabilityHelpers(rule string) {
 		ok = ok && len(apps) == 1 && inLoop(apps[0].Block()) && len(encs) == 1
 		c.require(ok, rule, "NewAddPathCapability", "code 69, tuples concatenated in order", p.Pos(fn.Pos()), "Capability{Code: 69, Value: Encode(t1) ++ Encode(t2) ++ …}")
 	}
+}
+
+// oneParamPerWireParam: decode(encode(x)) == x and encode(decode(b)) == b need
+// the decoded optional-parameter list to mirror the wire layout: every
+// iteration of the TLV loop that accepts a parameter appends exactly one
+// object allocated in that iteration, and the accepted result is built by
+// those appends only (merging parameters into one object, or appending
+// outside the loop, changes the re-encoded length octets).
+func (c *Check) oneParamPerWireParam(rule string) {
+	p := c.P
+	fn := p.Fn("decodeOptionalParams")
+	if fn == nil {
+		return
+	}
+	var apps []*ssa.Call
+	for _, cl := range p.callsIn(fn, descIs("builtin:append")) {
+		call, ok := cl.(*ssa.Call)
+		if !ok {
+			continue
+		}
+		if sl, ok := call.Type().Underlying().(*types.Slice); ok && strings.HasSuffix(sl.Elem().String(), "optionalParam") {
+			apps = append(apps, call)
+		}
+	}
+	c.require(len(apps) == 1, rule, "decodeOptionalParams", "single append site", p.Pos(fn.Pos()), fmt.Sprintf("exactly one append to the parameter list (found %d)", len(apps)))
+	isApp := map[ssa.Value]bool{}
+	for _, ap := range apps {
+		isApp[ap] = true
+		okLoop := inLoop(ap.Block())
+		// the appended element is a MakeInterface of an Alloc made in the loop
+		fresh := false
+		if len(ap.Call.Args) == 2 {
+			if sl, ok := ap.Call.Args[1].(*ssa.Slice); ok {
+				if arr, ok := sl.X.(*ssa.Alloc); ok {
+					for _, r := range *arr.Referrers() {
+						ia, ok := r.(*ssa.IndexAddr)
+						if !ok {
+							continue
+						}
+						for _, rr := range *ia.Referrers() {
+							if st, ok := rr.(*ssa.Store); ok {
+								if mi, ok := st.Val.(*ssa.MakeInterface); ok {
+									if al, ok := mi.X.(*ssa.Alloc); ok && inLoop(al.Block()) {
+										fresh = true
+									}
+								}
+							}
+						}
+					}
+				}
+			}
+		}
+		c.require(okLoop && fresh, rule, "decodeOptionalParams", "append of a per-iteration object", p.InstrPos(ap),
+			fmt.Sprintf("the append is inside the TLV loop (%v) and appends an object allocated in the same iteration (%v)", okLoop, fresh))
+		// every full iteration passes the append: no path from the loop head
+		// back to it avoids the append
+		if okLoop {
+			var head *ssa.BasicBlock
+			for _, b := range fn.Blocks {
+				for _, pr := range b.Preds {
+					if b.Dominates(pr) && b.Dominates(ap.Block()) {
+						if head == nil || head.Dominates(b) {
+							head = b
+						}
+					}
+				}
+			}
+			skip := false
+			if head != nil {
+				seen := map[*ssa.BasicBlock]bool{}
+				var walk func(b *ssa.BasicBlock)
+				walk = func(b *ssa.BasicBlock) {
+					if seen[b] || b == ap.Block() {
+						return
+					}
+					seen[b] = true
+					for _, s := range b.Succs {
+						if s == head {
+							skip = true
+							return
+						}
+						walk(s)
+					}
+				}
+				walk(head)
+			}
+			c.require(head != nil && !skip, rule, "decodeOptionalParams", "every accepted parameter is appended", p.InstrPos(ap), "no iteration of the TLV loop reaches the next one without appending its parameter")
+		}
+	}
+	// accepted result: built from the empty list by those appends only
+	n := 0
+	allInstrs(fn, func(in ssa.Instruction) {
+		r, ok := in.(*ssa.Return)
+		if !ok || len(r.Results) != 2 {
+			return
+		}
+		if cst, isC := r.Results[1].(*ssa.Const); !isC || cst.Value != nil {
+			return
+		}
+		n++
+		seen := map[ssa.Value]bool{}
+		okT := true
+		var trace func(v ssa.Value)
+		trace = func(v ssa.Value) {
+			if seen[v] {
+				return
+			}
+			seen[v] = true
+			switch x := v.(type) {
+			case *ssa.Phi:
+				for _, e := range x.Edges {
+					trace(e)
+				}
+			case *ssa.MakeSlice:
+				if cst, ok := x.Len.(*ssa.Const); !ok || cst.Value == nil || cst.Int64() != 0 {
+					okT = false
+				}
+			case *ssa.Const:
+				if x.Value != nil {
+					okT = false
+				}
+			case *ssa.Slice:
+				// make([]T, 0) with a constant size is a slice of new [0]T
+				if n, ok := constLen(x); !ok || n != 0 {
+					okT = false
+				}
+			case *ssa.Call:
+				if !isApp[x] {
+					okT = false
+					return
+				}
+				trace(x.Call.Args[0])
+			default:
+				okT = false
+			}
+		}
+		trace(r.Results[0])
+		c.require(okT, rule, "decodeOptionalParams", "accepted list built by the loop's appends", p.InstrPos(r), "the returned list is the empty list extended only by the per-parameter append")
+	})
+	c.floor(rule, n, 1, "accepting returns of decodeOptionalParams")
 }
